@@ -397,6 +397,13 @@ def match_finding(findings, prop, sig):
             continue
         ok = True
         for k, v in f["match"].items():
+            if k.endswith("_re"):
+                import re
+                sv = sig.get(k[:-3])
+                if not (isinstance(sv, str) and re.search(v, sv)):
+                    ok = False
+                    break
+                continue
             sv = sig.get(k)
             if isinstance(v, list):
                 if sv not in v:
@@ -461,6 +468,13 @@ def finish(prop, tier, seed, level, acc, t0, rule, assumptions=(), extra=None,
     rc = 0
     if new:
         os.makedirs(os.path.join(VERIF, "replays"), exist_ok=True)
+        summ = {}
+        for v in new:
+            key = json.dumps(v["sig"], sort_keys=True, default=str)
+            summ.setdefault(key, [0, v["witness"]])[0] += 1
+        with open(os.path.join(VERIF, "replays", "%s-%s-%d-summary.json" % (prop, tier, seed)), "w") as f:
+            json.dump([{"sig": json.loads(k), "kept_witnesses": c, "witness": w}
+                       for k, (c, w) in sorted(summ.items())], f, indent=1, default=str)
         seen = set()
         k = 0
         for v in new:
